@@ -10,8 +10,8 @@ pref = sys.argv[2:]
 res = {}
 for m in re.finditer(r'^\s*(PASS|FAIL|TIMEOUT|SIGABRT|SIGSEGV|LEAK|FLAKY[^\[]*|ABORT)\s*\[[^\]]*\]\s*(?:\([^)]*\)\s*)?(\S+)\s+(\S+)', log, re.M):
     st, binid, name = m.group(1).split()[0], m.group(2), m.group(3)
-    crate = binid.split('::')[0]
-    key = f'{crate}::{name}'
+    key = f'{binid}::{name}'
+    if st == 'LEAK': st = 'PASS'  # passed, but a handle outlived the test (load)
     if res.get(key) != 'PASS':
         res[key] = st
     else:
